@@ -90,6 +90,13 @@ def _run_child(prop, tier, flavour, casefile=None):
         res = None
     err = open(errlog).read()
     os.unlink(out); os.unlink(errlog)
+    if env.get('VERIF_ASAN_LOG'):
+        import glob
+        for f in glob.glob(env['VERIF_ASAN_LOG'] + '.*'):
+            try:
+                os.unlink(f)
+            except OSError:
+                pass
     return p.returncode, res, err
 
 
